@@ -42,7 +42,7 @@ TF = 'chainables.tree_fns'
 
 
 def run(ctx: Ctx):
-  for r in (r9, r1, r2, r3, r4, r5, r6, r7, r8, r10):
+  for r in (r9, r1, r2, r3, r4, r5, r6, r7, r8, r10, r11):
     ctx.guard(r)
 
 
@@ -636,10 +636,39 @@ def r10(ctx: Ctx, scope=('utils.iter_utils', 'chainables.tree_fns', 'chainables.
   ctx.floor(rule, floor, n)
 
 
+def r11(ctx: Ctx):
+  rule = 'R-C19-11'
+  ctx.rule(rule, '"all columns of a batch have equal length (row i of every column comes from the same input row)": the operator'
+           ' tells the output re-batcher how many columns to expect (`num_columns=self._num_outputs`), and the function'
+           ' returns one column per OUTPUT KEY — also for a key that is skipped when the record is written. `_num_outputs`'
+           ' is the plain number of output keys (`len(self.output_keys)`, or a constant for the single-key forms): it'
+           ' contains no filter over the keys. Counting only the written keys makes the re-batcher reject the first output'
+           ' ("Mismatched columns") as soon as Key.SKIP is combined with batch_size')
+  fi = ctx.repo.func('chainables.tree_fns', 'TreeFn._num_outputs')
+  n = 0
+  for r_ in walk_no_nested(fi.node):
+    if not (isinstance(r_, ast.Return) and r_.value is not None):
+      continue
+    n += 1
+    filtered = [x for x in ast.walk(r_.value) if isinstance(x, (ast.GeneratorExp, ast.ListComp, ast.SetComp)) and any(g.ifs for g in x.generators)]
+    filtered += [x for x in ast.walk(r_.value) if isinstance(x, ast.Call) and unparse(x.func) in ('filter', 'sum') and x is not r_.value and False]
+    calls_filter = [x for x in ast.walk(r_.value) if isinstance(x, ast.Call) and unparse(x.func) == 'filter']
+    what = f'TreeFn._num_outputs: `{unparse(r_)[:50]}` counts every output key'
+    if filtered or calls_filter:
+      ctx.fail(rule, fi, what,
+               f'`{unparse(r_)[:80]}` counts a filtered subset of the output keys: the function still returns a column for every'
+               ' key, so the re-batcher is configured with too few columns and rejects the outputs', node=r_)
+    else:
+      ctx.ok(rule, fi, what, r_)
+  ctx.floor(rule, 2, n)
+
+
 from mlmverif.selfcheck import B, OK  # noqa: E402
 
 _F = 'utils/iter_utils.py'
 VARIANTS = [
+    B('num-outputs-without-skipped-keys', 'chainables/tree_fns.py',
+      "    if isinstance(self.output_keys, tuple):\n      return len(self.output_keys)\n", "    if isinstance(self.output_keys, tuple):\n      return sum(1 for key in self.output_keys if key != tree.Key.SKIP)\n", 'R-C19-11'),
     B('debug-line-walks-the-concatenated-columns', 'utils/iter_utils.py',
       "      concated = map(_concat, column_buffer)\n", "      concated = map(_concat, column_buffer)\n      if logging.level_debug():\n        logging.debug('chainable: %s', f'flushing {[_batch_size(c) for c in concated]} rows')\n", 'R-C19-10'),
     OK('debug-line-walks-the-buffer-not-the-map', 'utils/iter_utils.py',
